@@ -379,7 +379,7 @@ def loop_protocol(ck, rid, fn, T, worker, lookup, buf, why):
 
 # ---------------------------------------------------------------------------------------------------------------- run
 def run(ck):
-    facts = ck.facts(["src/stmem.cc", "src/mem_node.cc"], whole=False)  # DEVTMP
+    facts = ck.facts(["src/stmem.cc", "src/mem_node.cc"], whole=True)
     MH, MN = "mem_hdr::", "mem_node::"
 
     # ------------------------------------------------------------------ E: the extent of one node (mem_node.cc)
@@ -708,7 +708,6 @@ def run(ck):
     # ------------------------------------------------------------------ WHO
     ck.rule("WHO1 selective removal happens only in unlink() called from freeDataUpto(); copyAvailable()/writeAvailable()/nodeToRecieve()/appendNode() are reached only "
             "through copy()/write() (their argument roles are checked above)")
-    return  # DEVTMP
     ck.who_calls("WHO1.removers", facts, MH + "unlink", {MH + "freeDataUpto": "gated by F1"}, min_callers=1)
     mine = [c for c in facts.callers("Splay::remove") if c[0].startswith(MH)]
     ck.need(mine, "C49: no Splay::remove caller inside mem_hdr")
